@@ -287,7 +287,7 @@ def panic_inventory(ctx, rule):
                 cls = "debug-assert"
             elif b.id in ctx.model.tls_closure and ctx.model.tls_closure[b.id] in ctx.model.registries():
                 # contract violations the property excludes: duplicate create / use of a missing id
-                if cn.endswith("unwrap"):
+                if cn.endswith(("unwrap", "expect")):
                     a = S.strip_refs(sy.operand(t["args"][0]))
                     if a[0] == "call" and a[1].endswith(("HashMap::get_mut", "HashMap::get")):
                         cls = "registry-contract"
